@@ -818,6 +818,70 @@ def dedupe_violations(chk):
     chk.violations = list(best.values())
 
 
+# =========================================================================================== families in parallel (one pool, not nested)
+class Recorder:
+    """stands in for the Check inside a worker process: buffers plain-data obligation records and assumptions"""
+
+    def __init__(self):
+        self.records, self.assumptions, self.extra = [], [], {}
+
+    def obligation(self, name, function, backend, result, time_s=0.0, **kw):
+        self.records.append((name, function, backend, result, time_s, json.loads(json.dumps(kw, default=str))))
+
+    def error(self, name, detail):
+        self.obligation(name, '-', 'checker', report.ERROR, 0.0, detail=detail)
+
+    def assume(self, text):
+        self.assumptions.append(text)
+
+
+_PAR = {}
+
+
+def _family_worker(i):
+    fams, scoped, common, per_family, models = _PAR['fams'], _PAR['scoped'], _PAR['common'], _PAR['per_family'], _PAR['models']
+    fname, entry, post, onv, mode = fams[i]
+    rec = Recorder()
+    extra_models = models(mode) if models else {}
+    E.MODELS.update(extra_models)
+    try:
+        kw = dict(common)
+        kw.update(per_family(fname, mode) if per_family else {})
+        fr = verify.verify_function(scoped(rec), fname, entry, post, on_violation=onv, **kw)
+    finally:
+        for k in extra_models:
+            E.MODELS.pop(k, None)
+    return i, rec.records, rec.assumptions, sorted(fr.inlined), rec.extra
+
+
+def run_families(chk, fams, scoped, common, per_family=None, models=None):
+    """verify every family; one process pool of min(8, cpu_count) forked workers (never nested: verify_function runs with workers=1),
+    results recorded in family order so that the evidence is deterministic"""
+    import multiprocessing
+    _PAR.update(fams=fams, scoped=scoped, common=common, per_family=per_family, models=models)
+    n = min(8, multiprocessing.cpu_count() or 1, len(fams))
+    idx = list(range(len(fams)))
+    if n <= 1 or os.environ.get('VERIF_SERIAL'):
+        results = [_family_worker(i) for i in idx]
+    else:
+        ctx = multiprocessing.get_context('fork')
+        with ctx.Pool(n) as pool:
+            results = pool.map(_family_worker, idx, chunksize=1)
+    inlined = set()
+    for i, records, assumptions, inl, extra in sorted(results, key=lambda r: r[0]):
+        for k, v in extra.items():          # e.g. the second-solver tally of the thorough tier: summed over the workers
+            if isinstance(v, dict):
+                agg = chk.extra.setdefault(k, {})
+                for kk, vv in v.items():
+                    agg[kk] = agg.get(kk, 0) + vv if isinstance(vv, (int, float)) else vv
+        for a in assumptions:
+            chk.assume(a)
+        for name, function, backend, result, time_s, kw in records:
+            chk.obligation(name, function, backend, result, time_s, **kw)
+        inlined |= set(inl)
+    return inlined
+
+
 # =========================================================================================== driver
 class Scoped:
     def __init__(self, chk):
@@ -922,17 +986,11 @@ def main(tier):
         if f:
             known[name] = (f['what'], log_class(sc))
     timeout = 8000 if tier == 'quick' else 60000
-    inlined = set()
     only = lambda n: n.startswith(PID + '.')
-    for fname, entry, post, onv, mode in families(tier):
-        if mode == 'decode-contract':
-            E.MODELS[TPV_KEY] = _decode_contract
-        try:
-            fr = verify.verify_function(Scoped(chk), fname, entry, post, known=known, on_violation=onv, witness_terms=witness_terms,
-                                        timeout_ms=timeout, deadline_s=3600, path_timeout_ms=30000, only=only, refute=refuter(kind_of(fname)))
-        finally:
-            E.MODELS.pop(TPV_KEY, None)
-        inlined |= fr.inlined
+    common = dict(known=known, witness_terms=witness_terms, timeout_ms=timeout, deadline_s=3600, path_timeout_ms=30000, only=only)
+    inlined = run_families(chk, families(tier), Scoped, common,
+                           per_family=lambda fname, mode: {'refute': refuter(kind_of(fname))},
+                           models=lambda mode: {TPV_KEY: _decode_contract} if mode == 'decode-contract' else {})
     chk.extra['inlined_real_functions'] = sorted(inlined)
     if any(o['obligation'].startswith('C15.to_parameter_values.decode_is_last') for o in chk.obligations):
         chk.note('C15.to_parameter_values.* are proved against the contract of _to_parameter_value (an uninterpreted decode function); '
